@@ -7,5 +7,8 @@ from tcverif.__main__ import run_check
 files = subprocess.check_output(['git', '-C', '/repo', 'diff', '--name-only', 'd7ce335', 'HEAD']).decode().split()
 ov = {f: subprocess.check_output(['git', '-C', '/repo', 'show', f'd7ce335:{f}']).decode() for f in files if f.endswith('.py')}
 code, R = run_check('C12', False, overlay=ov, quiet=True, write=False)
-print('pinned pre-fix tree vs reference: exit', code, [o.construct for o in R.obs if o.status != 'discharged'][:5])
-sys.exit(code)
+# only the term comparison matters here: the other C12 rules (e.g. R12.2, imported from C07) rightly report the defects the fix: commits repaired
+bad = [o.construct for o in R.obs if o.status != 'discharged' and o.rule == 'C12.term']
+n = sum(1 for o in R.obs if o.rule == 'C12.term')
+print('pinned pre-fix tree vs reference:', 'exit', 1 if bad or not n else 0, bad[:5], f'({n} anchors compared)')
+sys.exit(1 if bad or not n else 0)
